@@ -75,6 +75,11 @@ pub(super) fn remove_or_compress_too_old_logfiles(
             )
         },
         |cleanup_thread_handle| {
+            #[cfg(flexi_logger_verif)]
+            crate::verif_hooks::sync_op(crate::verif_hooks::Op::Send(
+                "cleanup_chan",
+                crate::verif_hooks::tid_hash(cleanup_thread_handle.join_handle.thread().id()),
+            ));
             cleanup_thread_handle
                 .sender
                 .send(MessageToCleanupThread::Act)
@@ -110,12 +115,16 @@ pub(crate) fn remove_or_compress_too_old_logfiles_impl(
         log_limit = 1;
     }
 
+    #[cfg(flexi_logger_verif)]
+    let _ = crate::verif_hooks::fs_point("cleanup_list", &file_spec.directory);
     for (index, file) in list_of_log_and_compressed_files(file_spec, infix_filter)
         .into_iter()
         .enumerate()
     {
         if index >= log_limit + compress_limit {
             // delete (log or log.gz)
+            #[cfg(flexi_logger_verif)]
+            crate::verif_hooks::fs_point("cleanup_remove", &file)?;
             std::fs::remove_file(file)?;
         } else if index >= log_limit {
             #[cfg(feature = "compress")]
@@ -135,13 +144,23 @@ pub(crate) fn remove_or_compress_too_old_logfiles_impl(
                             }
                         }
 
+                        #[cfg(flexi_logger_verif)]
+                        crate::verif_hooks::fs_point("gz_create", &compressed_file)?;
                         let mut gz_encoder = flate2::write::GzEncoder::new(
                             File::create(compressed_file)?,
                             flate2::Compression::fast(),
                         );
+                        #[cfg(flexi_logger_verif)]
+                        crate::verif_hooks::fs_point("gz_open", &file)?;
                         let mut old_file = File::open(file.clone())?;
+                        #[cfg(flexi_logger_verif)]
+                        crate::verif_hooks::fs_point("gz_copy", &file)?;
                         std::io::copy(&mut old_file, &mut gz_encoder)?;
+                        #[cfg(flexi_logger_verif)]
+                        crate::verif_hooks::fs_point("gz_finish", &file)?;
                         gz_encoder.finish()?;
+                        #[cfg(flexi_logger_verif)]
+                        crate::verif_hooks::fs_point("gz_remove", &file)?;
                         std::fs::remove_file(&file)?;
                     }
                 }
@@ -166,7 +185,14 @@ enum MessageToCleanupThread {
 }
 impl CleanupThreadHandle {
     pub(super) fn shutdown(self) {
+        #[cfg(flexi_logger_verif)]
+        crate::verif_hooks::sync_op(crate::verif_hooks::Op::Send(
+            "cleanup_chan",
+            crate::verif_hooks::tid_hash(self.join_handle.thread().id()),
+        ));
         self.sender.send(MessageToCleanupThread::Die).ok();
+        #[cfg(flexi_logger_verif)]
+        crate::verif_hooks::sync_op(crate::verif_hooks::Op::Join(self.join_handle.thread().id()));
         self.join_handle.join().ok();
     }
 }
@@ -185,6 +211,11 @@ pub(super) fn start_cleanup_thread(
     Ok(CleanupThreadHandle {
         sender,
         join_handle: builder.spawn(move || {
+            #[cfg(flexi_logger_verif)]
+            crate::verif_hooks::sync_op(crate::verif_hooks::Op::Recv(
+                "cleanup_chan",
+                crate::verif_hooks::tid_hash(std::thread::current().id()),
+            ));
             while let Ok(MessageToCleanupThread::Act) = receiver.recv() {
                 remove_or_compress_too_old_logfiles_impl(
                     &cleanup,
@@ -193,6 +224,11 @@ pub(super) fn start_cleanup_thread(
                     writes_direct,
                 )
                 .ok();
+                #[cfg(flexi_logger_verif)]
+                crate::verif_hooks::sync_op(crate::verif_hooks::Op::Recv(
+                    "cleanup_chan",
+                    crate::verif_hooks::tid_hash(std::thread::current().id()),
+                ));
             }
         })?,
     })
